@@ -383,4 +383,69 @@ theorem comp_from (n : Nat) (hn : n < 2 ^ 63) : ∀ (suf pre : List α), pre.len
     simp only [List.foldlM, List.length_cons, compStep_eq, hi, hget, hset, hw, bind, Except.bind]
     simpa using this
 
+/-! ### reference model with lent flags -/
+
+theorem Spec.Ref.cells_length (r : Ref α) (h : r.WF) : r.cells.length = r.vals.length := by
+  unfold Ref.cells Ref.WF at *; simp [h]
+
+theorem Spec.Ref.cells_get (r : Ref α) (h : r.WF) (k : Nat) (hk : k < r.vals.length) :
+    r.cells[k]? = some (if r.lent[k]'(h ▸ hk) then none else some r.vals[k]) := by
+  unfold Ref.cells
+  have hk' : k < r.lent.length := h ▸ hk
+  simp [List.getElem?_zipWith, hk, hk']
+
+theorem Spec.Ref.cells_set_lend (r : Ref α) (k : Nat) :
+    r.cells.set k none = (⟨r.vals, r.lent.set k true⟩ : Ref α).cells := by
+  unfold Ref.cells
+  apply List.ext_getElem?
+  intro j
+  simp only [List.getElem?_set, List.getElem?_zipWith, List.length_zipWith]
+  by_cases hj : k = j
+  · subst hj
+    by_cases hl : k < r.vals.length <;> by_cases hl' : k < r.lent.length <;> simp [hl, hl'] <;> omega
+  · simp [hj]
+
+theorem Spec.Ref.cells_set_give (r : Ref α) (k : Nat) (v : α) :
+    r.cells.set k (some v) = (⟨r.vals.set k v, r.lent.set k false⟩ : Ref α).cells := by
+  unfold Ref.cells
+  apply List.ext_getElem?
+  intro j
+  simp only [List.getElem?_set, List.getElem?_zipWith, List.length_zipWith]
+  by_cases hj : k = j
+  · subst hj
+    by_cases hl : k < r.vals.length <;> by_cases hl' : k < r.lent.length <;> simp [hl, hl'] <;> omega
+  · simp [hj]
+
+
+/-! ### running sequences of accesses through the emitted code (used by the sequence theorems) -/
+
+/-- classical reads / writes through `getitem false` / `setitem false` -/
+def runOps : Cells α × List α → List (AOp α) → M (Cells α × List α)
+  | st, [] => pure st
+  | st, .read i :: os => do
+    let (v, a) ← getitem false st.1 i
+    runOps (a, st.2 ++ [v]) os
+  | st, .write i v :: os => do
+    let a ← setitem false st.1 i v
+    runOps (a, st.2) os
+
+
+/-- the same sequence through the emitted code -/
+def runL : Cells α × List α → List (LOp α) → M (Cells α × List α)
+  | st, [] => pure st
+  | st, .lend i :: os => do
+    let (v, a) ← getitem true st.1 i
+    runL (a, st.2 ++ [v]) os
+  | st, .giveBack i v :: os => do
+    let a ← setitem true st.1 i v
+    runL (a, st.2) os
+
+
+
+/-! unfolding lemmas are generated here (not in `Props/`) -/
+theorem runOps_nil (st : Cells α × List α) : runOps st [] = pure st := by simp [runOps]
+theorem runL_nil (st : Cells α × List α) : runL st [] = pure st := by simp [runL]
+theorem pyRun_nil (st : List α × List α) : pyRun st [] = some st := by simp [pyRun]
+theorem refRun_nil (st : Ref α × List α) : refRun st [] = some st := by simp [refRun]
+
 end GuppyVerif.ArraySem
